@@ -1346,6 +1346,14 @@ mod expression_parser {
                 })
                 .collect_vec();
               let loc = peeked_loc.union(&right_parenthesis_loc);
+              if tuple_elements.len() == 1 {
+                // `(a, )`: a trailing comma after a single name does not make a tuple.
+                parser.error_set.report_invalid_syntax_error(
+                  loc,
+                  "A tuple must have at least two elements".to_string(),
+                );
+                return tuple_elements.into_iter().next().unwrap();
+              }
               return expr::E::Tuple(
                 expr::ExpressionCommon {
                   loc,
